@@ -436,9 +436,7 @@ Fixpoint run_ops (c : ecodec) (ops : list encoded) : list (list N) :=
     end
   end.
 
-Definition run_enc5 (c : list (list N)) : list (list N) :=
-  match c with
-  | [peer_max; npi] :: ops =>
+Definition run_enc5_cfg (peer_max npi : N) (ops : list (list N)) : list (list N) :=
     if 1 <? npi then [[99]]
     else match p_ops ops with
          | None => [[97]]
@@ -446,7 +444,15 @@ Definition run_enc5 (c : list (list N)) : list (list N) :=
            let c0 := if peer_max =? 0 then ecodec_new else set_max_outbound_size ecodec_new peer_max in
            let c1 := mkECodec (ec_max_out_size c0) (ec_max_out_frame c0) (npi =? 1) None in
            run_ops c1 items
-         end
+         end.
+
+(* the optional third configuration field lists the capability calls the server makes after the handshake
+   (Codec::set_retain_available / set_sub_ids_available): they set or clear NO_RETAIN / NO_SUB_IDS, which the
+   encoder does not read, and leave NO_PROBLEM_INFO alone -- the encoder's behaviour does not depend on them *)
+Definition run_enc5 (c : list (list N)) : list (list N) :=
+  match c with
+  | [peer_max; npi] :: ops => run_enc5_cfg peer_max npi ops
+  | [peer_max; npi; caps] :: ops => if 15 <? caps then [[99]] else run_enc5_cfg peer_max npi ops
   | _ => [[99]]
   end.
 
